@@ -6,7 +6,6 @@ Direct evaluation on the implementation with an oracle that is independent of th
 value the generator started from, every other member as in a fresh instance, network / type / version, serialize -> deserialize,
 factory deserialize, canonical order, id definitions (hashlib), and rejection of the malformed stream.
 """
-import ast
 import hashlib
 import json
 import os
@@ -70,158 +69,171 @@ KNOWN = {
 DEFERRED_OK = ('out-of-range-plain',)
 
 
-# region translator: rule lists of the two factories, read with ast
+# region translator: what the two factories register, recorded from the running code
 
 
-def _class_function(path, class_name, function_name):
-	from translate import pyconst
-	for node in pyconst.parse(path).body:
-		if isinstance(node, ast.ClassDef) and node.name == class_name:
-			for item in node.body:
-				if isinstance(item, ast.FunctionDef) and item.name == function_name:
-					return item
-	raise ValueError(f'{class_name}.{function_name} not found in {path}')
+_PROBE = r"""
+import importlib, json, sys, types
+from enum import Flag
+
+chain = sys.argv[1]
+rule_based = importlib.import_module('symbolchain.RuleBasedTransactionFactory')
+factory_module = importlib.import_module(f'symbolchain.{chain}.TransactionFactory')
+network_module = importlib.import_module(f'symbolchain.{chain}.Network')
+crypto = importlib.import_module('symbolchain.CryptoTypes')
+from symbolchain.ByteArray import ByteArray
+Factory = rule_based.RuleBasedTransactionFactory
+
+calls = []
+constructed = []
 
 
-def _class_functions(path, class_name):
-	from translate import pyconst
-	for node in pyconst.parse(path).body:
-		if isinstance(node, ast.ClassDef) and node.name == class_name:
-			return [item for item in node.body if isinstance(item, ast.FunctionDef)]
-	return []
+def recorder(method_name):
+	original = getattr(Factory, method_name)
 
-
-def build_rules_facts(path):
-	"""Interprets TransactionFactory._build_rules: which parsers are registered, in order."""
-	function = _class_function(path, 'TransactionFactory', '_build_rules')
-	env = {}
-	facts = {'structs': [], 'pods': [], 'arrays': [], 'autodetect': False}
-
-	def ev(node):
-		if isinstance(node, ast.Constant):
-			return node.value
-		if isinstance(node, ast.Name):
-			return env[node.id] if node.id in env else ('class', node.id)
-		if isinstance(node, ast.Attribute) and isinstance(node.value, ast.Name):
-			return ('module-class', node.attr)  # `sc.UnresolvedMosaicId`
-		if isinstance(node, (ast.List, ast.Tuple)):
-			return [ev(item) for item in node.elts]
-		if isinstance(node, ast.Dict):
-			return {ev(key): ev(value) for key, value in zip(node.keys, node.values)}
-		if isinstance(node, ast.JoinedStr):
-			return ''.join(str(ev(part)) for part in node.values)
-		if isinstance(node, ast.FormattedValue):
-			return ev(node.value)
-		if isinstance(node, ast.Call) and isinstance(node.func, ast.Attribute) and 'items' == node.func.attr and not node.args:
-			return list(ev(node.func.value).items())
-		raise ValueError(f'_build_rules: expression not understood: {ast.dump(node)[:100]}')
-
-	def bind(target, value):
-		if isinstance(target, ast.Name):
-			env[target.id] = value
-		elif isinstance(target, ast.Tuple):
-			for part, item in zip(target.elts, value):
-				bind(part, item)
-		else:
-			raise ValueError('_build_rules: loop target not understood')
-
-	def run(statements):
-		for statement in statements:
-			if isinstance(statement, ast.Assign) and 1 == len(statement.targets) and isinstance(statement.targets[0], ast.Name):
-				try:
-					env[statement.targets[0].id] = ev(statement.value)
-				except (ValueError, KeyError):
-					pass  # `factory = RuleBasedTransactionFactory(...)`
-			elif isinstance(statement, ast.Expr) and isinstance(statement.value, ast.Call) and isinstance(statement.value.func, ast.Attribute):
-				call = statement.value
-				args = [ev(arg) for arg in call.args]
-				if 'add_struct_parser' == call.func.attr:
-					facts['structs'].append(args[0])
-				elif 'add_pod_parser' == call.func.attr:
-					if 'module-class' != args[1][0]:  # a class of the generated module is what autodetect registers anyway
-						facts['pods'].append([args[0], args[1][1]])
-				elif 'add_array_parser' == call.func.attr:
-					facts['arrays'].append(args[0][len('struct:'):] if args[0].startswith('struct:') else args[0])
-				elif 'autodetect' == call.func.attr:
-					facts['autodetect'] = True
-				else:
-					raise ValueError(f'_build_rules: unknown registration {call.func.attr}')
-			elif isinstance(statement, ast.For):
-				for item in ev(statement.iter):
-					bind(statement.target, item)
-					run(statement.body)
-			elif isinstance(statement, ast.Assign):
-				pass  # an assignment to something that is no plain name registers nothing
-			elif isinstance(statement, ast.Return):
-				return
+	def wrapper(self, *args, **kwargs):
+		entry = {'call': method_name, 'args': []}
+		for arg in args:
+			if isinstance(arg, type):
+				entry['args'].append({
+					'class': arg.__name__, 'module': arg.__module__,
+					'size': getattr(arg, 'SIZE', None) if issubclass(arg, ByteArray) else None})
 			else:
-				raise ValueError(f'_build_rules: statement not understood: {ast.dump(statement)[:100]}')
-
-	run(function.body)
-	if not facts['autodetect']:
-		raise ValueError('_build_rules does not call autodetect')
-	return facts
+				entry['args'].append(arg if isinstance(arg, (str, int)) or arg is None else repr(arg))
+		calls.append(entry)
+		return original(self, *args, **kwargs)
+	return wrapper
 
 
-def converter_facts(path):
-	"""The custom type converter: which SDK class it recognises, which module class it builds, and from what."""
-	for function in _class_functions(path, 'TransactionFactory'):
-		if not function.name.endswith('_type_converter'):
-			continue
-		recognised = None
-		target = None
-		as_text = False
-		for node in ast.walk(function):
-			if isinstance(node, ast.Call) and isinstance(node.func, ast.Name) and 'isinstance' == node.func.id:
-				recognised = node.args[1].id
-			if isinstance(node, ast.Return) and isinstance(node.value, ast.Call) and isinstance(node.value.func, ast.Attribute):
-				target = node.value.func.attr
-				as_text = any(isinstance(inner, ast.Call) and isinstance(inner.func, ast.Name) and 'str' == inner.func.id for inner in ast.walk(node.value))
-		if recognised and target:
-			return recognised, target, as_text
-	raise ValueError(f'no type converter found in {path}')
+for name in dir(Factory):
+	if name.startswith('add_') or 'autodetect' == name:
+		setattr(Factory, name, recorder(name))
+
+original_init = Factory.__init__
 
 
-def flags_parser_rejects_negative():
-	"""does the int branch of the flags parser (RuleBasedTransactionFactory.add_flags_parser) refuse negative numbers before calling the Flag class?"""
-	path = os.path.join(REPO, 'sdk/python/symbolchain/RuleBasedTransactionFactory.py')
-	function = _class_function(path, 'RuleBasedTransactionFactory', 'add_flags_parser')
-	for node in ast.walk(function):
-		if isinstance(node, ast.If) and isinstance(node.test, ast.Call) and isinstance(node.test.func, ast.Name) and 'isinstance' == node.test.func.id:
-			if isinstance(node.test.args[1], ast.Name) and 'int' == node.test.args[1].id:
-				for inner in node.body:
-					if isinstance(inner, ast.If) and isinstance(inner.test, ast.Compare) and 1 == len(inner.test.ops) and isinstance(inner.test.ops[0], ast.Lt):
-						zero = inner.test.comparators[0]
-						if isinstance(zero, ast.Constant) and 0 == zero.value and any(isinstance(item, ast.Raise) for item in inner.body):
-							return True
-	return False
+def init(self, module, type_converter=None, type_rule_overrides=None):
+	constructed.append({'module': module, 'type_converter': type_converter})
+	original_init(self, module, type_converter, type_rule_overrides)
+
+
+Factory.__init__ = init
+
+network = network_module.Network.TESTNET
+factory = factory_module.TransactionFactory(network)
+module = constructed[-1]['module']
+custom = constructed[-1]['type_converter']
+
+# the custom type converter: which SDK value classes it takes over, what it builds from them
+sdk_classes = {cls.__name__: cls for cls in vars(crypto).values() if isinstance(cls, type) and issubclass(cls, ByteArray) and cls is not ByteArray}
+sdk_classes[network_module.Address.__name__] = network_module.Address
+recognised = []
+for class_name, cls in sorted(sdk_classes.items()):
+	raw = bytes((index * 7 + 3) % 256 for index in range(cls.SIZE))
+	value = cls(raw)
+	result = custom(value) if custom else None
+	if result:
+		recognised.append({
+			'class': class_name, 'target': type(result).__name__, 'target_module': type(result).__module__,
+			'as_text': bytes(result.bytes) != raw, 'text_ok': bytes(result.bytes) == str(value).encode('utf8')})
+
+# which classes of a type_rule_overrides table end up as rules (the override path)
+sentinels = {}
+candidates = [cls for cls in vars(module).values() if isinstance(cls, type) and cls.__module__ == module.__name__] + list(sdk_classes.values())
+for cls in candidates:
+	sentinels[cls] = (lambda tag: (lambda value: ('override', tag)))(f'{"module" if cls.__module__ == module.__name__ else "sdk"}:{cls.__name__}')
+del calls[:]
+overridden = factory_module.TransactionFactory(network, sentinels)
+consulted = {}
+for rule_name, rule in overridden.factory.rules.items():
+	try:
+		outcome = rule(0)
+	except Exception:  # pylint: disable=broad-except
+		continue
+	if isinstance(outcome, tuple) and 2 == len(outcome) and 'override' == outcome[0]:
+		consulted[rule_name] = outcome[1]
+	elif isinstance(outcome, list) and outcome and isinstance(outcome[0], tuple) and 'override' == outcome[0][0]:
+		consulted[rule_name] = outcome[0][1]
+
+# the flags parser and negative numbers (Python's Flag class alone takes -1 as "all declared bits")
+class Probe(Flag):
+	ONE = 1
+
+
+probe_factory = Factory(types.SimpleNamespace(Probe=Probe))
+probe_factory.add_flags_parser('Probe')
+try:
+	probe_factory.rules['Probe'](-1)
+	rejects_negative = False
+except ValueError:
+	rejects_negative = True
+
+# the first construction again, for the call list in registration order
+del calls[:]
+factory_module.TransactionFactory(network)
+print(json.dumps({
+	'calls': calls, 'module': module.__name__, 'recognised': recognised, 'consulted': consulted, 'rejects_negative': rejects_negative,
+	'has_create_embedded': hasattr(factory, 'create_embedded'),
+	'identifiers': {'mainnet': network_module.Network.MAINNET.identifier, 'testnet': network_module.Network.TESTNET.identifier}}))
+"""
+
+_PROBED = {}
+
+
+def probe_factory(name):
+	"""what constructing the real <chain>.TransactionFactory registers, recorded in a fresh interpreter (no reading of source text)"""
+	import subprocess
+	if (REPO, name) in _PROBED:
+		return _PROBED[(REPO, name)]
+	root = os.path.dirname(os.path.dirname(os.path.abspath(__file__)))
+	env = dict(os.environ)
+	env.update({
+		'PYTHONPATH': os.pathsep.join([os.path.join(REPO, 'sdk/python'), os.path.join(root, 'shims')]),
+		'PYTHONDONTWRITEBYTECODE': '1', 'PYTHONHASHSEED': '0'})
+	proc = subprocess.run(['/venv/bin/python', '-c', _PROBE, name], env=env, capture_output=True, text=True, timeout=120, check=False)
+	if 0 != proc.returncode:
+		raise ValueError(f'cannot construct the {name} TransactionFactory of {REPO}: {proc.stderr.strip()[-500:]}')
+	_PROBED[(REPO, name)] = json.loads(proc.stdout.strip().split('\n')[-1])
+	return _PROBED[(REPO, name)]
 
 
 def network_facts(name):
 	"""Everything of Config except schema and networkId, as a JSON-able dict (single source for driver and Generated/C10Consts.lean)."""
-	from translate import pyconst
-	base = os.path.join(REPO, 'sdk/python/symbolchain')
-	factory_path = os.path.join(base, name, 'TransactionFactory.py')
-	network_path = os.path.join(base, name, 'Network.py')
-	facts = build_rules_facts(factory_path)
-	recognised, target, as_text = converter_facts(factory_path)
-	sdk_classes = {}
-	for _, class_name in facts['pods']:
-		if class_name == recognised:
-			sdk_classes[class_name] = pyconst.class_constants(network_path, class_name)['SIZE']
-		else:
-			sdk_classes[class_name] = pyconst.class_constants(os.path.join(base, 'CryptoTypes.py'), class_name)['SIZE']
-	identifiers = {label.lower(): pyconst.attribute_call_args(network_path, 'Network', label)[1] for label in ('MAINNET', 'TESTNET')}
-	with open(factory_path, 'rt', encoding='utf8') as infile:
-		has_embedded = 'def create_embedded' in infile.read()
+	probed = probe_factory(name)
+	structs, pods, arrays, sdk_classes = [], [], [], {}
+	autodetect = False
+	for entry in probed['calls']:
+		call, args = entry['call'], entry['args']
+		if 'autodetect' == call:
+			autodetect = True
+		elif 'add_struct_parser' == call:
+			structs.append(args[0])
+		elif 'add_array_parser' == call:
+			arrays.append(args[0][len('struct:'):] if args[0].startswith('struct:') else args[0])
+		elif 'add_pod_parser' == call:
+			# a class of the generated module is what autodetect registers for every named integer type; the others are SDK value classes
+			if args[1]['module'] != probed['module']:
+				if args[1]['size'] is None:
+					raise ValueError(f'{name}: add_pod_parser({args[0]!r}, {args[1]["class"]}) with a class that is neither of the module nor a byte array')
+				pods = [pair for pair in pods if pair[0] != args[0]] + [[args[0], args[1]['class']]]
+				sdk_classes[args[1]['class']] = args[1]['size']
+		elif call not in ('add_enum_parser', 'add_flags_parser'):
+			raise ValueError(f'{name}: registration {call} is unknown to the model')
+	if not autodetect:
+		raise ValueError(f'the {name} factory does not call autodetect')
+	if 1 != len(probed['recognised']):
+		raise ValueError(f'{name}: the custom type converter takes over {[entry["class"] for entry in probed["recognised"]]}, the model expects one class')
+	converter = probed['recognised'][0]
+	if converter['target_module'] != probed['module'] or (converter['as_text'] and not converter['text_ok']):
+		raise ValueError(f'{name}: the custom type converter builds {converter}')
 	return {
-		'txBase': 'Transaction', 'embBase': 'EmbeddedTransaction' if has_embedded else None,
-		'structRules': facts['structs'], 'sdkMapping': facts['pods'], 'arrayRules': facts['arrays'],
+		'txBase': 'Transaction', 'embBase': 'EmbeddedTransaction' if probed['has_create_embedded'] else None,
+		'structRules': structs, 'sdkMapping': pods, 'arrayRules': arrays,
 		'sdkClasses': [[key, value] for key, value in sdk_classes.items()],
-		'addressClass': recognised, 'addressKind': name, 'addressTarget': target, 'addressAsText': as_text,
+		'addressClass': converter['class'], 'addressKind': name, 'addressTarget': converter['target'], 'addressAsText': converter['as_text'],
 		'idAutofill': 'symbol' == name, 'messageHack': 'nem' == name,
-		'flagsRejectNegative': flags_parser_rejects_negative(),
-	}, identifiers
+		'flagsRejectNegative': probed['rejects_negative'],
+	}, probed['identifiers']
 
 
 def lean_str(text):
@@ -1373,8 +1385,16 @@ class Side:
 		return sorted(seen)
 
 	def check_tables(self):
-		"""the model resolves a friendly name exactly when create_by_name does, to the same class"""
+		"""the model resolves a friendly name exactly when create_by_name does, to the same class; and a type_rule_overrides table is consulted
+		for exactly the classes the model says (named integer types by their module class, mapped byte arrays by their SDK class)"""
 		ctx = self.ctx
+		consulted = probe_factory(self.name)['consulted']
+		for type_name in self.net.order:
+			key = self.override_class(type_name)
+			wanted = f'{key[0]}:{key[1]}' if key else None
+			if consulted.get(type_name) != wanted:
+				ctx.fail('corr', f'{self.name}: a factory built with an override for every class uses {consulted.get(type_name)} for {type_name}, the model {wanted}', {
+					'network': self.name, 'type': type_name})
 		for embedded in (False, True):
 			base = self.facts['embBase'] if embedded else self.facts['txBase']
 			if base is None:
